@@ -1,5 +1,6 @@
 import UtilModel.RefCount.Props
 import UtilModel.RefCount.ObsC09
+import UtilModel.RefCount.ObsNoPanic
 import UtilModel.RefCount.Proofs7
 open UtilModel UtilModel.RefCount
 #print axioms UtilModel.accepts_sound
@@ -15,3 +16,4 @@ open UtilModel UtilModel.RefCount
 #print axioms RefCount.one_resolver_obs
 #print axioms RefCount.reachable_thinv
 #print axioms RefCount.api_not_stuck
+#print axioms RefCount.no_panic_obs
